@@ -44,6 +44,16 @@ def plan(tier, seed):
 
 
 def make(backend, system, rows, mom):
+    if backend.startswith("numpy-"):
+        import vector
+
+        dt = {"int64": numpy.int64, "float32": numpy.float32}[backend.split("-")[1]]
+        names = R.field_names(system)
+        arr = numpy.zeros(len(rows), dtype=[(n, dt) for n in names])
+        for i, n in enumerate(names):
+            arr[n] = [row[i] for row in rows]
+        cls = getattr(vector, ("MomentumNumpy" if mom else "VectorNumpy") + f"{len(system) + 1}D")
+        return [arr.view(cls)]
     if backend == "mp":
         return [B.mk_mp(system, [Q(mpf(c)) for c in row], mom) for row in rows]
     if backend == "object":
@@ -101,13 +111,14 @@ def run_shard(spec, tier, seed):
     def V(mech, **d):
         res.violation(f"C04/{mech}", d)
 
-    for backend in ("mp", "object", "numpy", "awkward"):
+    for backend in ("mp", "object", "numpy", "awkward", "numpy-int64", "numpy-float32"):
         bkey = f"{backend}|{fl}"
+        typed = backend.startswith("numpy-")
         # ------------------------------------------------------------ (i)+(ii) to_* conversions at the same dimension
-        src_core = make(backend, system, [l.exact_coords() for l in lrows] if backend == "mp" else core_rows, mom)
+        src_core = make(backend, system, [l.exact_coords() for l in lrows] if backend == "mp" else core_rows, mom) if not typed else []
         for cname, (tsys, is_m) in C.CONVERSIONS.items():
             tdim = len(tsys) + 1
-            if tdim != dim:
+            if tdim != dim or typed:
                 continue
             res.evaluations += 1
             try:
@@ -176,6 +187,9 @@ def run_shard(spec, tier, seed):
         # ------------------------------------------------------------ (iii)-(vi) dimension changes, bit for bit, special values
         if backend == "mp":
             srows = [l.exact_coords() for l in lrows]
+        elif typed:
+            # integer / float32 stored columns: values exactly representable in the column dtype
+            srows = [tuple(float(int(c * 4) % 7 + 1) if system[min(i, len(system) - 1)] else 0.0 for i, c in enumerate(row)) for row in core_rows]
         else:
             srows = special_rows
         src = make(backend, system, srows, mom)
@@ -238,9 +252,9 @@ def run_shard(spec, tier, seed):
         # embeddings with every keyword spelling, scalar and array values
         def kwval(kind):
             x = float(gen.dyadic(r, 0.2, 3))
-            if kind == "array" and backend in ("numpy", "awkward"):
+            if kind == "array" and (backend in ("numpy", "awkward") or typed):
                 vals = [x + 0.125 * i for i in range(nrow)]
-                if backend == "numpy":
+                if backend == "numpy" or typed:
                     return numpy.array(vals), vals
                 return ak.Array([vals[: nrow // 2], [], vals[nrow // 2:]]), vals
             if backend == "mp":
@@ -301,7 +315,7 @@ def run_shard(spec, tier, seed):
                     except Exception as e:
                         V(f"conflicting-keywords-wrong-exception action={nm}", source=sn, kwargs=sorted(kwargs), exc=repr(e)[:160])
         # (v) to_<system>() on a lower-dimensional vector imputes the keyword or zero
-        if dim < 4 and backend != "mp":
+        if dim < 4 and backend != "mp" and not typed:
             for cname, (tsys, is_m) in C.CONVERSIONS.items():
                 tdim = len(tsys) + 1
                 if tdim <= dim:
